@@ -112,7 +112,7 @@ func openSegments(dir string, opt Options) (first, last *segment, err error) {
 			last = s
 		} else {
 			// dangling segment: remove it
-			if err = os.Remove(segmentFile(dir, off)); err == nil {
+			if err = os.Remove(segmentFile(dir, off)); err != nil {
 				return
 			}
 		}
